@@ -373,6 +373,17 @@ def ops_unit(fname):
                         return x is Bc and y is A
                     return False
                 eng.genv["issubclass"] = Fn(lambda e, s, a, k: [(issub(a[0], a[1]), s)])
+                # `_ALL_DEFAULT_ARGS` of a render class: keyed by its ancestors (itself included) that HAVE a namespace class.  The
+                # class a namespace is associated with has one; the class of a RenderArgs operand need not
+                b_has_ns = True if other_kind == "namespace" or Bc is A else z3.Bool("render_args_class_has_its_own_namespace")
+                for owner in {A.id: A, Bc.id: Bc}.values():
+                    dm = st.new("defaultsmap", {"owner": owner})
+                    st.H(owner)["_ALL_DEFAULT_ARGS"] = dm
+
+                def dm_contains(e, s, recv, a, k):
+                    owner, key = s.H(recv)["owner"], a[0]
+                    return [(And(issub(owner, key), True if key is A else b_has_ns), s)]
+                eng.methods[("defaultsmap", "__contains__")] = dm_contains
                 self_ = st.new("ArgsNamespace", {"nsid": 1})
                 self_cls = st.new("nscls", {"_RENDER_CLS": A})
                 other = {"namespace": st.new("ArgsNamespace", {"nsid": 2}), "render-args": st.new("RenderArgs", {"render_cls": Bc}), "other": 5}[other_kind]
@@ -565,4 +576,78 @@ def u_eq_hash(ctx):
             continue
         eng.oblige("equal-sets-hash-equal", s, Implies(val, hs["a"] == hs["b"]), kind="post")
         eng.oblige("equality=same-class-and-equal-namespaces", s, to_z3(val) == z3.And(c1 == c2, m1 == m2) if is_sym(val) else z3.BoolVal(bool(val)) == z3.And(c1 == c2, m1 == m2), kind="post")
+    return eng.obligations
+
+
+@unit("C16", "_types:ArgsNamespace.__eq__/__hash__")
+def u_ns_eq_hash(ctx):
+    """equal namespaces hash equal: two namespace objects whose classes are associated with the same render class (one class may be
+    a subclass of the other: same fields, same association) and whose field values are equal compare equal - and then hash equal"""
+    eng = ctx.engine("C16/ArgsNamespace.__eq__/__hash__", "C16")
+    eng.default_replay = "C16.construct"
+    st = State()
+    eng.classes["ArgsNamespace"] = ()
+    eng.genv["ArgsNamespace"] = ClassV("ArgsNamespace")
+    ca, cb, ta, tb = z3.Ints("render_cls_a render_cls_b ns_class_a ns_class_b")
+    FIELDS = ("f0", "f1")
+    # data invariant of namespace classes (ArgsNamespaceMeta): classes associated with the same render class have the same fields;
+    # the same class object has one association
+    st.pc.append(z3.Implies(ta == tb, ca == cb))
+    Ta = st.new("nscls", {"cid": ta, "_RENDER_CLS": Rec("rcls", {"cid": ca}), "_FIELDS": FIELDS})
+    Tb = st.new("nscls", {"cid": tb, "_RENDER_CLS": Rec("rcls", {"cid": cb}), "_FIELDS": FIELDS})
+    va, vb = [z3.Int(f"a_{f}") for f in FIELDS], [z3.Int(f"b_{f}") for f in FIELDS]
+    a = st.new("ArgsNamespace", dict(zip(FIELDS, va), **{"@type": Ta, "oid": z3.Int("obj_a")}))
+    b = st.new("ArgsNamespace", dict(zip(FIELDS, vb), **{"@type": Tb, "oid": z3.Int("obj_b")}))
+    st.pc.append(z3.Implies(z3.Int("obj_a") == z3.Int("obj_b"), z3.And(ta == tb, *[x == y for x, y in zip(va, vb)])))      # one object: one class, one value
+    eng.genv["type"] = Fn(lambda e, s, a_, k: [(s.H(a_[0])["@type"], s)])
+    PAIR = z3.Function("py_tuple_cons", I, I, I)
+    HASH1 = z3.Function("py_hash1", I, I)
+
+    def enc(s, v):
+        if isinstance(v, tuple):
+            acc = z3.IntVal(len(v))
+            for x in v:
+                acc = PAIR(acc, enc(s, x))
+            return acc
+        if isinstance(v, Ref) and isinstance(s.H(v), list):
+            return enc(s, tuple(s.H(v)))
+        if isinstance(v, Rec):
+            return to_z3(v.f["cid"])
+        if isinstance(v, Ref) and "cid" in s.H(v):
+            return 1000003 * to_z3(s.H(v)["cid"]) + 7            # a class object: its identity (kept apart from render-class ids)
+        return to_z3(v)
+    eng.genv["hash"] = Fn(lambda e, s, a_, k: [(HASH1(enc(s, a_[0])), s)])
+    eng.genv["tuple"] = Fn(lambda e, s, a_, k: [(tuple(e.iter_concrete(a_[0], s)), s)])
+    orig_cmp = eng.cmp
+
+    def cmp(op, x, y, s=None):
+        import ast as _ast
+        if isinstance(op, (_ast.Is, _ast.IsNot)) and isinstance(x, Ref) and isinstance(y, Ref) and s is not None and "oid" in s.H(x) and "oid" in s.H(y):
+            r = s.H(x)["oid"] == s.H(y)["oid"]
+            return Not(r) if isinstance(op, _ast.IsNot) else r
+        return orig_cmp(op, x, y, s)
+    eng.cmp = cmp
+    hs = {}
+    for nm, obj in (("a", a), ("b", b)):
+        s0 = st.fork()
+        s0.frames = [dict(self=obj)]
+        for kind, val, s in run_function(eng, ctx.fn(TY, "ArgsNamespace.__hash__"), s0):
+            if kind != "return":
+                eng.oblige(f"hash:no-exception:{getattr(val, 'cls', kind)}", s, False, kind="raise")
+            else:
+                hs[nm] = val
+    s0 = st.fork()
+    s0.frames = [dict(self=a, other=b)]
+    for kind, val, s in run_function(eng, ctx.fn(TY, "ArgsNamespace.__eq__"), s0):
+        if kind != "return":
+            eng.oblige(f"eq:no-exception:{getattr(val, 'cls', kind)}", s, False, kind="raise")
+            continue
+        same = z3.And(ca == cb, *[x == y for x, y in zip(va, vb)])
+        v_ = to_z3(val) if is_sym(val) or isinstance(val, bool) else None
+        if v_ is None:
+            eng.oblige("equality-is-a-boolean", s, False, kind="post")
+            continue
+        eng.oblige("equality=same-render-class-and-equal-field-values", s, v_ == same, kind="post")
+        if "a" in hs and "b" in hs:
+            eng.oblige("equal-namespaces-hash-equal", s, Implies(v_, hs["a"] == hs["b"]), kind="post")
     return eng.obligations
